@@ -18,7 +18,7 @@ INVARIANT AtMostOneTerminal
 INVARIANT TerminalOnlyForInvoked
 INVARIANT ExactlyOneTerminalWhileUp
 INVARIANT ProgressOnlyWhileRunning
-INVARIANT HandlersAreCurrent
+PROPERTY HandlersWereCurrent
 INVARIANT CancelSentOnce
 PROPERTY NothingPendingAfterSessionEnd
 CHECK_DEADLOCK FALSE
